@@ -236,6 +236,7 @@ static struct thr thr[MAXTHREADS];
 static int nthr_live = 0;
 static struct fdent *fdt;
 static int fd_open_count = 0, fd_peak = 0, fd_mismatch = 0;
+static unsigned long n_emfile = 0, n_opens = 0;
 static unsigned long fd_checks = 0;
 static struct rule rules[MAXRULES];
 static int nrules = 0;
@@ -955,11 +956,13 @@ static void handle_syscall_stop(struct thr *t)
             }
             act = p->force ? "cloneok" : "fault";
         } else if (p->shortened) act = "short";
+        if (ret == -EMFILE || ret == -ENFILE) n_emfile++;
         /* fd bookkeeping */
         int logged = 0;
         if (p->se) {
             int nr = p->se->nr;
             if ((nr == 257 || nr == 2 || nr == 437 || nr == 85) && ret >= 0) {
+                n_opens++;
                 fd_set_open(t->tid, (int)ret, p->have_path ? p->path : NULL);
                 p->fd = (int)ret; /* so that the exit record carries the object identity */
                 if ((fd_checks < 20 || (nstops % 4096) < 2)) fd_crosscheck(root_pid);
@@ -1009,6 +1012,7 @@ static void write_summary(const char *fn, int exited, int status, int sig)
     fprintf(f, "{\"verdict\":\"%s\",\"detail\":", verdict); json_str(f, verdict_detail);
     fprintf(f, ",\"exited\":%d,\"status\":%d,\"signal\":%d", exited, status, sig);
     fprintf(f, ",\"stops\":%lu,\"events\":%lu,\"fd_peak\":%d,\"fd_checks\":%lu,\"fd_mismatch\":%d", nstops, seq, fd_peak, fd_checks, fd_mismatch);
+    fprintf(f, ",\"emfile\":%lu,\"opens\":%lu", n_emfile, n_opens);
     fprintf(f, ",\"killed_by_plan\":%d,\"kill_site\":", kill_delivered); json_str(f, kill_site);
     fprintf(f, ",\"sched_steps\":%lu,\"holds\":%lu,\"cap_releases\":%lu", sched_steps, holds, cap_releases);
     fprintf(f, ",\"wall_ms\":%.1f", ts_ms(&t_start, &tn));
